@@ -265,7 +265,10 @@ impl Log {
 pub enum Flavour {
     /// never blocks, nothing to flush
     Always,
-    /// socket-like: not ready iff buffer full; flush pending until the environment drains
+    /// socket-like (a framed byte stream): written items sit in the transport's buffer and are
+    /// put on the medium only once a flush has been asked for - by poll_flush, poll_close, or by
+    /// poll_ready finding the buffer full (tokio-util's Framed flushes there itself); not ready
+    /// iff the buffer is full; the flush stays pending until the environment drains
     Coupled,
     /// bounded-queue-like: flush always completes; not ready iff buffer full
     Indep,
@@ -298,6 +301,8 @@ pub struct Core<I> {
     pub flavour: Flavour,
     pub cap: usize,
     pub buf: VecDeque<Msg>,
+    /// Coupled: how many items at the front of `buf` a flush has been requested for
+    pub flush_requested: usize,
     pub delivered: Vec<Msg>,
     pub wire: Vec<Msg>,
     pub inbox: VecDeque<InItem<I>>,
@@ -325,6 +330,7 @@ impl<I> Core<I> {
             flavour,
             cap,
             buf: VecDeque::new(),
+            flush_requested: 0,
             delivered: Vec::new(),
             wire: Vec::new(),
             inbox: VecDeque::new(),
@@ -379,8 +385,11 @@ impl<I> Core<I> {
     }
     /// environment: the medium drains the write buffer
     pub fn drain(&mut self) -> usize {
-        let n = self.buf.len();
-        while let Some(m) = self.buf.pop_front() {
+        // a socket-like transport only transmits what it was asked to flush
+        let n = if self.flavour == Flavour::Coupled { self.flush_requested.min(self.buf.len()) } else { self.buf.len() };
+        self.flush_requested = 0;
+        for _ in 0..n {
+            let m = self.buf.pop_front().unwrap();
             self.log.push(Rec::PeerSaw {
                 side: self.side,
                 msg: m.clone(),
@@ -409,7 +418,14 @@ impl<I> Core<I> {
         }
     }
     pub fn blocked(&self) -> bool {
-        !self.buf.is_empty()
+        if self.flavour == Flavour::Coupled {
+            self.flush_requested > 0 && !self.buf.is_empty()
+        } else if self.flavour == Flavour::FlushFrees {
+            // only the transport's own flush moves data
+            false
+        } else {
+            !self.buf.is_empty()
+        }
     }
 }
 
@@ -495,6 +511,7 @@ impl<S: ToMsg, I> Sink<S> for MockTransport<S, I> {
             _ => c.buf.len() >= c.cap,
         };
         if full {
+            c.flush_requested = c.buf.len();
             c.ww = Some(cx.waker().clone());
             c.rec(Op::Ready, Res::Pending, None);
             // spin guard: an unbounded retry loop inside one poll becomes a finite observation
@@ -555,6 +572,7 @@ impl<S: ToMsg, I> Sink<S> for MockTransport<S, I> {
             return Poll::Ready(Err(mkerr("poll_flush")));
         }
         if c.flavour == Flavour::Coupled && !c.buf.is_empty() {
+            c.flush_requested = c.buf.len();
             c.ww = Some(cx.waker().clone());
             c.rec(Op::Flush, Res::Pending, None);
             Poll::Pending
@@ -574,6 +592,7 @@ impl<S: ToMsg, I> Sink<S> for MockTransport<S, I> {
             return Poll::Ready(Err(mkerr("poll_close")));
         }
         if c.flavour == Flavour::Coupled && !c.buf.is_empty() {
+            c.flush_requested = c.buf.len();
             c.ww = Some(cx.waker().clone());
             c.rec(Op::Close, Res::Pending, None);
             Poll::Pending
